@@ -1278,9 +1278,12 @@ class Ev:
             el = self.elem_of(recv)
             if el is not None:
                 return Seq(recv, el if callable(el) else (lambda idx, el=el: el))
-        if isinstance(recv, Rec) and recv.adt.endswith("ops::Range") and m in ("rev", "into_iter", "iter") and not args:
-            tag = "revrange" if m == "rev" else "range"
-            return Seq(Sym(tag, vkey(recv.fields.get("start")), vkey(recv.fields.get("end"))), lambda idx: idx)
+        if isinstance(recv, Rec) and recv.adt.endswith("ops::Range"):
+            if m in ("rev", "into_iter", "iter") and not args:
+                tag = "revrange" if m == "rev" else "range"
+                return Seq(Sym(tag, vkey(recv.fields.get("start")), vkey(recv.fields.get("end"))), lambda idx: idx)
+            if m in ("map", "filter", "enumerate", "zip", "all", "any", "fold", "collect", "sum", "count"):
+                recv = Seq(Sym("range", vkey(recv.fields.get("start")), vkey(recv.fields.get("end"))), lambda idx: idx)
         if isinstance(recv, Coll):
             if m in ("into_iter", "iter") and not args:
                 return recv.seq
